@@ -60,11 +60,21 @@ func (e *Environment) Get(name string) Object {
 }
 
 func (e *Environment) evalNameWithIndex(name string) []string {
+	return e.expandNameWithIndex(name, map[string]bool{})
+}
+
+func (e *Environment) expandNameWithIndex(name string, expanding map[string]bool) []string {
 	names := strings.Split(name, ".")
 	for _, n := range names {
-		if alias, ok := e.Aliases[n]; ok {
-			names = append(names, e.evalNameWithIndex(alias)...)
+		alias, ok := e.Aliases[n]
+		if !ok || expanding[n] {
+			// an alias that (directly or not) refers to itself is not expanded again
+			continue
 		}
+
+		expanding[n] = true
+		names = append(names, e.expandNameWithIndex(alias, expanding)...)
+		delete(expanding, n)
 	}
 
 	return names
